@@ -276,7 +276,8 @@ creationDateLoop:
 	glyphs := make(map[string]*Glyph)
 	for _, name := range names {
 		obfuscated, ok := cs[name].(postscript.String)
-		if !ok || len(obfuscated) < 4 {
+		if !ok || len(obfuscated) < int(lenIV) {
+			// shorter than the lead bytes of the charstring encryption
 			continue
 		}
 		plain := deobfuscateCharstring(obfuscated, int(lenIV))
